@@ -110,9 +110,14 @@ GEN_TIES = {
         "gen": "gen_code_table.py", "gen_file": "GscribModel/Gen/CodeTable.lean", "tie": "Tables",
         "what": "the model's instruction codes no longer equal the table translated from gscrib/codes/gcode_mappings.py",
     },
+    "point": {
+        "props": {"C01", "C03", "C04", "C11"},
+        "gen": "gen_point.py", "gen_file": "GscribModel/Gen/PointSrc.lean", "tie": "PointTie", "validate": "harness.tie_point",
+        "what": "the models' point operations no longer equal the Point methods translated from gscrib/geometry/point.py",
+    },
     "state": {
         "props": {"C02", "C03", "C05", "C06", "C07"},
-        "gen": "gen_state.py", "gen_file": "GscribModel/Gen/StateSrc.lean", "tie": "StateTie",
+        "gen": "gen_state.py", "gen_file": "GscribModel/Gen/StateSrc.lean", "tie": "StateTie", "validate": "harness.tie_state",
         "what": "the builder model's state transitions no longer equal the GState methods translated from gscrib/gcode_state.py",
     },
 }
@@ -423,6 +428,17 @@ class Run:
                     self.obligation_broken(n, f"axioms {ax} {r['forbidden'][:3]}")
                 else:
                     self.discharged += 1
+            # the translator itself: generated functions against the real class (only meaningful for the committed
+            # translation, which is what the compiled driver contains)
+            if t.get("validate") and not r["regenerated"]:
+                import importlib
+                v = importlib.import_module(t["validate"]).validate(random.Random(self.seed * 7919 + 13), self.n(300, 4000))
+                info["translator_validation"] = {k: v[k] for k in ("cases", "calls", "outcomes")}
+                if v["disagreement"]:
+                    self.disagree(f"translated-{key}-vs-source", {"ops": v["disagreement"]["ops"]}, v["disagreement"]["impl"],
+                                  v["disagreement"]["model"], step=v["disagreement"]["step"])
+            elif t.get("validate"):
+                info["translator_validation"] = "skipped: the tree under test translates differently from the committed copy"
 
     # ---- decision
     def finish(self, finding_predicates: dict | None = None, witnesses: dict | None = None) -> int:
